@@ -335,6 +335,19 @@ def gen_edf_op(rng, kind=None):
         os = [(gen.gen_task_arr(rng), wchoice(rng, [(8, rng.randint(1, 8)), (0.3, 0)]), dl()) for _ in range(n)]
         return f"edf_np {gen.arr_str(a)} {C} {D} {n}" + "".join(f" {gen.arr_str(x)} {c} {d}" for x, c, d in os) + f" {lim}"
     os = [(gen.gen_task_rb(rng, scalar=(rng.random() < 0.85)), dl(), wchoice(rng, [(5, rng.randint(1, 6)), (1, 0)])) for _ in range(n)]
+    if rng.random() < 0.12:
+        # a later-deadline interferer with a long non-preemptive segment that releases a BURST whose later jobs
+        # cost nothing (cost curve with a plateau / multiframe with an empty frame), or an aggregate one of
+        # whose components is silent: "releases work" and "least job cost > 0" differ
+        c_ = rng.randint(3, 6)
+        T_ = rng.randint(20, 60)
+        burst = ("spo", T_, rng.randint(T_, 2 * T_)) if rng.random() < 0.6 else ("cur", [0, T_, T_ + rng.randint(1, 5)])
+        cost = wchoice(rng, [(2, ("cc", [c_, c_])), (2, ("mf", [c_, 0])), (1, ("cc", [c_, c_, 2 * c_]))])
+        rb_ = ("rbf", burst, cost)
+        if rng.random() < 0.3:
+            rb_ = ("ragg", [("rbf", ("per", T_), ("sc", c_)), ("rbf", ("per", T_), ("mf", [0, c_]))])
+        os.append((rb_, D + rng.randint(20, 80), rng.randint(2, c_)))
+        n += 1
     tail = f" {n}" + "".join(f" {gen.rb_str(r)} {d} {sg}" for r, d, sg in os) + f" {lim}"
     if kind == "edf_lp":
         a = gen.gen_task_arr(rng)
@@ -407,6 +420,7 @@ def stream_ros_e19(rng, n):
         s = gen.supply_str(gen_ros_supply(rng))
         lim = gen.gen_limit(rng)
         k = wchoice(rng, [(2, "es"), (3, "tm"), (3, "pp"), (2, "ch")])
+        structured_own = None
         own = gen.gen_rb_maybe_agg(rng, scalar=(rng.random() < 0.8), allow_prefix=(rng.random() < 0.1))
         interf = wchoice(rng, [(5, ("ragg", [gen.gen_task_rb(rng) for _ in range(rng.randint(0, 3))])), (2, gen.gen_task_rb(rng))])
         if rng.random() < 0.3:
@@ -426,7 +440,12 @@ def stream_ros_e19(rng, n):
                 ocost = ("cc", vec)
             else:
                 ocost = ("mf", [oc] + [rng.randint(1, oc) for _ in range(rng.randint(1, 2))])
+            if ocost[0] != "sc" and rng.random() < 0.6:
+                # several own instances inside the busy window: jitter around the period or a bursty curve
+                T_ = oa[1]
+                oa = ("spo", T_, rng.randint(max(T_ - 2, 0), 2 * T_)) if rng.random() < 0.7 else ("cur", [rng.randint(0, 2), T_, T_ + rng.randint(1, 3)])
             own = ("rbf", oa, ocost)
+            structured_own = own
             interf = ("ragg", [("rbf", a, ("sc", c)) for a, c in hp])
             lim = rng.randint(300, 2000)
             if rng.random() < 0.6:
@@ -438,8 +457,11 @@ def stream_ros_e19(rng, n):
         elif k == "pp":
             ops.append(f"ros_pp {s} {gen.rb_str(own)} {gen.rb_str(interf)} {lim}")
         else:
-            last = gen.gen_task_rb(rng, allow_prefix=False)
+            last = structured_own if structured_own is not None else gen.gen_task_rb(rng, scalar=(rng.random() < 0.7), allow_prefix=False)
             pre = [gen.gen_task_rb(rng, allow_prefix=False) for _ in range(rng.randint(0, 2))]
+            if structured_own is not None and rng.random() < 0.7:
+                # a proper chain: the callbacks before the last one share its arrival curve
+                pre = [("rbf", structured_own[1], ("sc", rng.randint(1, 2)))]
             prefix = ("ragg", pre)
             full = ("ragg", pre + [last])
             ops.append(f"ros_ch {s} {gen.rb_str(last)} {gen.rb_str(prefix)} {gen.rb_str(full)} {gen.rb_str(interf)} {lim}")
